@@ -2,7 +2,7 @@
    oracles instantiated by the concrete codecs of C04 (Base/C04_Text.v: str.split, str.strip; Base/C04_Decimal.v:
    float(), int()), applied to lines given as C04 character lists.  Geometry (Lattice(...), setLatPar, float*int)
    stays abstract.  These are the functions `parse_g` of the rejection table: parse_g (print_f S). *)
-From Coq Require Import List Bool Arith ZArith.
+From Coq Require Import List Bool Arith ZArith NArith.
 From DS Require Import Base.C13_Exn Gen.C13_ExcSpec Model.C13_Common Model.C13_Xyz Model.C13_Pdffit Model.C13_Discus.
 From DS Require Import Base.C04_Text Base.C04_Decimal Model.C04_Fmt.
 From Coq Require Import Ascii String.
@@ -42,3 +42,23 @@ Definition first_word_is (k : string) (l : str) : bool :=
   | w :: _ => str_eqb w (S2L k)
   | [] => false
   end.
+
+(* ---- side conditions of the rejection table (on the written structure) ---------------------------- *)
+From DS Require Import Gen.C04_FmtSpecs Model.C04_Xyz Model.C04_Rawxyz Model.C04_Pdffit Model.C04_Discus.
+
+Definition word_is (k : string) (w : str) : bool := str_eqb w (S2L k).
+
+(* xyz / rawxyz text: neither the title nor an element symbol reads as a `cell` record of the PDFfit/DISCUS formats *)
+Definition elements_not_cell (atoms : list xatom) : bool := forallb (fun a => negb (word_is "cell" (xa_el a))) atoms.
+Definition xyz_no_cell_word (S : xstru) : bool := negb (first_word_is "cell" (x_title S)) && elements_not_cell (x_atoms S).
+
+(* discus text read by P_pdffit: an element symbol (written in upper case) must not read as a number.  C04's float()
+   codec is the restricted grammar [sign] digits [. digits]; Python's float() also takes exponents and the words nan / inf /
+   infinity, so the condition asks for more than the proof uses: the symbol starts with a letter A-Z and is none of those
+   words (then Python's float() fails as well), and C04's parse_float rejects it (what the proof uses). *)
+Definition is_AZ (c : ascii) : bool := let n := codeN c in N.leb 65 n && N.leb n 90.
+Definition symbol_not_number (w : str) : bool :=
+  match w with c :: _ => is_AZ c | [] => false end &&
+  negb (word_is "NAN" w) && negb (word_is "INF" w) && negb (word_is "INFINITY" w) && negb (isfloat w).
+Definition discus_elements_not_numbers (S : dstru) : bool :=
+  forallb (fun a => symbol_not_number (map upper (da_el a))) (d_atoms S).
